@@ -219,6 +219,15 @@ fn mark_start() {
     }
     CUR_CASE.fetch_add(1, Ordering::SeqCst);
 }
+/// batch cases call this before every sub-evaluation: the deadline applies to one call into the
+/// code under test, not to the whole batch
+pub fn mark_progress() {
+    if CUR_START_MS.load(Ordering::SeqCst) != u64::MAX {
+        if let Some(t0) = WATCH_T0.get() {
+            CUR_START_MS.store(t0.elapsed().as_millis() as u64, Ordering::SeqCst);
+        }
+    }
+}
 fn mark_end() {
     CUR_START_MS.store(u64::MAX, Ordering::SeqCst);
 }
@@ -737,6 +746,7 @@ pub fn parent<P: Prop>(a: &ParentArgs) -> i32 {
             &nshards.to_string(),
         ])
         .env("RUST_BACKTRACE", "0")
+        .env("VERIF_TIER", a.tier.name())
         .stdout(Stdio::piped())
         .stderr(Stdio::null());
         let mut child = cmd.spawn().expect("spawn worker");
